@@ -181,12 +181,13 @@ func (multi *MultiEpoch) handleGetSignaturesForAddress(ctx context.Context, conn
 			if !listVerified[epochNum] {
 				// The address index only keeps a short hash of each address: an address without history in this
 				// epoch can resolve to the list of another address. Such a list never mentions the requested
-				// address; the first transaction whose accounts are all known decides. (A v0 transaction archived
-				// without metadata does not tell its loaded addresses: it can only confirm, not refute.)
+				// address; the first transaction that can be parsed decides. (A v0 transaction archived without
+				// metadata does not tell its loaded addresses - but the indexer did not know them either: it
+				// files such a transaction under its static keys only, so it refutes like any other.)
 				if tx, meta, err := parseTransactionAndMetaFromNode(decoded, epoch.GetDataFrameByCid); err == nil {
 					if transactionHasAccount(&tx, meta, pk) {
 						listVerified[epochNum] = true
-					} else if len(tx.Message.AddressTableLookups) == 0 || meta != nil {
+					} else {
 						return nil, gsfa.ErrNotThisAddress
 					}
 				}
@@ -215,9 +216,6 @@ func (multi *MultiEpoch) handleGetSignaturesForAddress(ctx context.Context, conn
 		tx, meta, err := parseTransactionAndMetaFromNode(txs[0], ser.GetDataFrameByCid)
 		if err != nil {
 			continue // cannot verify: keep the previous behaviour
-		}
-		if len(tx.Message.AddressTableLookups) > 0 && meta == nil {
-			continue // loaded addresses unknown: cannot verify
 		}
 		if !transactionHasAccount(&tx, meta, pk) {
 			delete(foundTransactions, epochNum)
